@@ -41,6 +41,9 @@ EXES = {
     "useb": "b2 = b; b3 = b; print b b2 b3;",
     "usey": "y2 = y; y3 = y; print y.count() y2.count() y3.count();",
     "usea": "a2 = a + 1; a3 = a + 1; print a a2 a3;",
+    "rint": "r = 5;",
+    "rset": 'r.set@2("k");',
+    "useout": "for i in 1 to 3 loop out.concat(i * i); end loop; print out.count() out.at(2);",
 }
 BAD = {"syn": "a = ;", "eof": "a = (1 +", "undef": "zz9 = nosuch + 1;", "str": 'a = "unterminated;', "deep": "for i in 1 to 2 loop a = ; end loop;"}
 EXPRS = {"add": "a + 1", "str": 'b + "?"', "div": "1 / (a - a)", "tab": "tab(2, a)", "tup": "tup(a, b)", "const": "40 + 2"}
@@ -181,7 +184,7 @@ def mk_load(c, name, l):
         cx = m.ctx[c]
         if cx is None or name not in cx.vars:
             return None
-        sl = {"A": 0, "B": 1, "T": 2, "R": 3, "Y": 2}[name]
+        sl = {"A": 0, "B": 1, "T": 2, "R": 3, "Y": 2, "OUT": 3}[name]
         ops = []
         if cx.syms.get(sl) != name:
             ops.append("k.find %d %d %s" % (c, sl, name))
@@ -317,6 +320,15 @@ def run_exe(m, c, name):
     elif name == "tab":
         cx.vars["T"] = ("T", [a, a])
         cx.vars["R"] = ("R", [a, b])
+    elif name == "rint":
+        cx.vars["R"] = ("i", 5)
+    elif name == "rset":
+        cx.vars["R"] = ("R", [cx.vars["R"][1][0], ("s", b"k")])
+    elif name == "useout":
+        old = cx.vars["OUT"][1] if cx.vars["OUT"][0] == "T" else []
+        cx.vars["OUT"] = ("T", list(old) + [("i", 1), ("i", 4), ("i", 9)])
+        cx.vars["I"] = ("i", 3)
+        out = "%d%d\n" % (len(old) + 3, cx.vars["OUT"][1][2][1])
     elif name == "rehandle":
         return (False, 1, "E2", "")
     elif name == "useb":
@@ -351,6 +363,10 @@ def mk_pexe(c, name, withpos):
             return None          # these texts need a non-null string in B
         if name == "usey" and cx.vars.get("Y", ("N",))[0] != "x":
             return None
+        if name == "rset" and cx.vars.get("R", ("N",))[0] != "R":
+            return None          # compiled for the tuple that R holds
+        if name == "useout" and cx.vars.get("OUT", ("x",))[0] not in ("N", "T"):
+            return None
         pre, pexp = reread_ops(m, c)
         ops = list(pre)
         if m.exe is not None:
@@ -368,6 +384,10 @@ def mk_pexe(c, name, withpos):
             cx.vars.setdefault("I", ("N", "i"))
         if name in ("div", "falldiv"):
             cx.vars.setdefault("X", ("N", "i"))
+        if name == "rint":
+            cx.vars.setdefault("R", ("N", "i"))
+        if name == "useout":
+            cx.vars.setdefault("I", ("N", "i"))
         if name == "useb":
             cx.vars.setdefault("B2", ("N", "s"))
             cx.vars.setdefault("B3", ("N", "s"))
@@ -390,7 +410,7 @@ def mk_pexe(c, name, withpos):
 
 
 for nm in EXES:
-    OPS.append(("pexe-%s" % nm, mk_pexe(0, nm, 0), nm in ("inc", "ret", "div", "fun", "bind", "raise", "rehandle", "falldiv")))
+    OPS.append(("pexe-%s" % nm, mk_pexe(0, nm, 0), nm in ("inc", "ret", "div", "fun", "bind", "raise", "rehandle", "falldiv", "rint", "rset")))
 OPS.append(("pexe-inc-pos", mk_pexe(0, "inc", 1), False))
 
 
@@ -430,6 +450,10 @@ def mk_exec(two, c):
             return None
         if name == "usey" and cx.vars.get("Y", ("N",))[0] != "x":
             return None
+        if name == "rset" and cx.vars.get("R", ("N",))[0] != "R":
+            return None
+        if name == "useout" and cx.vars.get("OUT", ("x",))[0] not in ("N", "T"):
+            return None
         if two and (target == owner or m.clone_at < m.exe_at):
             return None      # execute2 needs a clone of the parsing context taken after the parse
         pre, pexp = reread_ops(m, target)
@@ -458,8 +482,24 @@ def mk_script(name):
     return fn
 
 
-for nm in ("useb", "usey", "usea"):
+for nm in ("useb", "usey", "usea", "tab", "useout"):
     OPS.append(("script-%s" % nm, mk_script(nm), True))
+
+
+def op_reg_out(m):
+    """a table symbol registered by the host: it has the type it was registered with and scripts use it as a table"""
+    cx = m.ctx[0]
+    if cx is None or "OUT" in cx.vars:
+        return None
+    pre, pexp = reread_ops(m, 0)
+    invalidate(m, 0)
+    cx.vars["OUT"] = ("N", "t")
+    cx.syms[3] = "OUT"
+    m.lib[1] = ("slot", 0, "OUT")
+    return pre + ["k.reg 0 3 OUT 2 1", "k.load 0 3 1"], pexp + [("ptr", 1), ("regtype", 2, 1)]
+
+
+OPS.append(("reg-OUT", op_reg_out, True))
 OPS.append(("exec2-c1", mk_exec(True, 1), True))
 
 
@@ -965,6 +1005,10 @@ def check(case, res):
                 mm = val_matches(s["val"], e[2])
                 if mm:
                     bad("assign:value", "%s; model %r" % (mm, e[2]), i)
+        elif k == "regtype":
+            v = s.get("val", {})
+            if v.get("null_ptr") or v.get("major") != e[1] or v.get("ndim") != e[2] or v.get("isnull") != 1:
+                bad("register:type", "symbol registered as major %d ndim %d holds %s" % (e[1], e[2], {x: v.get(x) for x in ("major", "ndim", "isnull", "null_ptr")}), i)
         elif k == "trace":
             if e[1] is not None and s.get("trace") != (1 if e[1] else 0):
                 bad("trace:flag", "bloc_ctx_trace returns %s, the host set %s" % (s.get("trace"), e[1]), i)
